@@ -65,6 +65,24 @@ def cases(tier, seed):
         flow = dict(alpha=float(np.round(rng.uniform(-4, 10), 2)), beta=0.0, v=float(rng.uniform(50, 260)), rho=float(rng.uniform(0.3, 1.2)),
                     Mach_number=float(np.round(rng.uniform(0.3, 0.8), 3)), re=1e6, cg=[float(np.round(rng.uniform(-1, 3), 3)), 0.0, float(np.round(rng.uniform(-1, 1), 3))])
         out.append(dict(kind="aero", geom=True, surfaces=surfs, flow=flow, compressible=bool(k % 4 == 3), sref=None, _cost=5 * ns))
+    # the mesh-manipulation helpers of openaerostruct.geometry.utils (the functions users and the repository's own tests apply to meshes
+    # before handing them to the groups): a sequence of them applied to the half mesh (symmetry=True) and to the full mesh
+    n = 10 if tier == "quick" else 240
+    for k in range(n):
+        spec = M.random_spec(rng, half="left", nx=int(rng.integers(2, 5)), ny=int(rng.integers(2, 8)))
+        ops = [str(x) for x in rng.choice(["dihedral", "sweep", "taper", "stretch", "rotate", "scale_x", "shear_x", "shear_y", "shear_z"], size=int(rng.integers(2, 6)), replace=False)]
+        if k % 2 == 0 and "rotate" not in ops:
+            ops.append("rotate")
+        if k % 2 == 0 and "dihedral" not in ops:
+            ops.insert(0, "dihedral")
+        out.append(dict(kind="helpers", mesh=spec, ops=ops, seed=int(rng.integers(1 << 30)), _cost=1))
+    # generated multi-section wings: the symmetric half vs the full-span wing made of the same sections and their mirror images
+    n = 10 if tier == "quick" else 200
+    for k in range(n):
+        ns = int(rng.integers(1, 4))
+        out.append(dict(kind="msec_gen", ns=ns, nx=int(rng.integers(2, 5)), ny=[int(rng.integers(2, 6)) for _ in range(ns)],
+                        span=[float(np.round(rng.uniform(0.5, 4.0), 3)) for _ in range(ns)], taper=[float(np.round(rng.uniform(0.4, 1.0), 3)) for _ in range(ns)],
+                        sweep=[float(np.round(rng.uniform(-0.2, 0.5), 3)) for _ in range(ns)], root_chord=float(np.round(rng.uniform(0.5, 3.0), 3)), _cost=1))
     n = 12 if tier == "quick" else 270
     for k in range(n):
         fem = "tube" if k % 2 else "wingbox"
@@ -294,7 +312,86 @@ def run_as(c, o):
     o.nontrivial = bool(np.abs(fh).max() > 0 and np.abs(dh).max() > 0)
 
 
+def run_helpers(c, o):
+    from openaerostruct.geometry import utils as U
+
+    rng = np.random.default_rng(c["seed"])
+    half = M.build(c["mesh"])
+    full = M.full_from_left(half)
+    ny = half.shape[1]
+    span = float(c["mesh"]["span"])
+    o.tags = ["helpers"] + list(c["ops"])
+    for op in c["ops"]:
+        if op == "dihedral":
+            a = float(rng.uniform(-8, 12))
+            U.dihedral(half, a, True)
+            U.dihedral(full, a, False)
+        elif op == "sweep":
+            a = float(rng.uniform(-20, 35))
+            U.sweep(half, a, True)
+            U.sweep(full, a, False)
+        elif op == "taper":
+            t = float(rng.uniform(0.3, 1.5))
+            U.taper(half, t, True)
+            U.taper(full, t, False)
+        elif op == "stretch":
+            b = span * float(rng.uniform(0.6, 1.6))
+            U.stretch(half, b, True)
+            U.stretch(full, b, False)
+        else:
+            # spanwise distributions: the full-span one is the half one and its mirror image
+            d = rng.uniform(-1, 1, ny) * (6.0 if op == "rotate" else 0.4)
+            if op == "scale_x":
+                d = 1.0 + 0.5 * d / 0.4
+            df = np.concatenate([d, d[::-1][1:]])
+            if op == "shear_y":
+                # a lateral shift is antisymmetric under the reflection and must vanish on the symmetry plane; it stays below a third of
+                # the smallest station spacing so that the stations keep their order and the left half stays on its side
+                gap = float(np.min(np.abs(np.diff(half[0, :, 1])))) if ny > 1 else 1.0
+                d = (d / 0.4) * 0.3 * gap
+                d = d - d[-1]
+                d *= 0.5
+                df = np.concatenate([d, -d[::-1][1:]])
+            if op == "rotate":
+                U.rotate(half, d, True)
+                U.rotate(full, df, False)
+            else:
+                getattr(U, op)(half, d)
+                getattr(U, op)(full, df)
+    scale = max(np.abs(full).max(), 1.0)
+    o.close("helpers/half_is_left_of_full", full[:, :ny], half, rtol=1e-12, scale=scale, what="helpers %s on the full mesh vs on the half mesh" % c["ops"])
+    o.close("helpers/full_mirror_symmetric", M.mirror(full), full, rtol=1e-12, scale=scale, what="full mesh after %s" % c["ops"])
+    o.nontrivial = True
+
+
+def run_msec_gen(c, o):
+    from openaerostruct.geometry import geometry_mesh_gen as G
+
+    ns = c["ns"]
+
+    def surf(sym, ny, span, taper, sweep, root_section):
+        n_ = len(ny)
+        return {"name": "surface", "is_multi_section": True, "num_sections": n_, "sec_name": ["sec%d" % i for i in range(n_)], "symmetry": sym, "S_ref_type": "wetted",
+                "root_section": root_section, "taper": np.array(taper), "span": np.array(span), "sweep": np.array(sweep), "root_chord": c["root_chord"], "meshes": "gen-meshes",
+                "nx": c["nx"], "ny": np.array(ny), "CL0": 0.0, "CD0": 0.0, "k_lam": 0.05, "c_max_t": 0.303, "with_viscous": False, "with_wave": False, "groundplane": False}
+
+    half, _ = G.generate_mesh(surf(True, c["ny"], c["span"], c["taper"], c["sweep"], ns - 1))
+    # the full-span wing: the same sections (tip ... root) followed by their mirror images (root ... tip); on the right the sweep angle
+    # of a section is measured with the opposite sign of y
+    full, _ = G.generate_mesh(surf(False, c["ny"] + c["ny"][::-1], c["span"] + c["span"][::-1], c["taper"] + c["taper"][::-1],
+                                   c["sweep"] + [-x for x in c["sweep"][::-1]], ns - 1))
+    o.tags = ["msec_gen", "ns=%d" % ns]
+    scale = max(np.abs(full).max(), 1.0)
+    nyh = half.shape[1]
+    if full.shape != (half.shape[0], 2 * nyh - 1, 3):
+        o.true("gen/multisection_half_full", False, "full-span generated mesh has shape %s, expected %s" % (full.shape, (half.shape[0], 2 * nyh - 1, 3)))
+        return
+    o.close("gen/multisection_half_full", full[:, :nyh], half, rtol=1e-12, scale=scale, what="left half of the generated full-span multi-section wing vs the symmetric half")
+    o.close("gen/multisection_half_full", M.mirror(full), full, rtol=1e-12, scale=scale, what="generated full-span multi-section wing is mirror symmetric")
+    o.nontrivial = True
+
+
 def run_case(c):
     o = Obs()
-    {"aero": run_aero, "as": run_as}[c["kind"]](c, o)
+    {"aero": run_aero, "as": run_as, "msec_gen": run_msec_gen, "helpers": run_helpers}[c["kind"]](c, o)
     return o
